@@ -3,7 +3,7 @@
 from harness import common, gens, pattern
 from harness.props import C02
 
-EXTRA_OBLIGATION_FILES = ("Props/C04_kits.v", "Props/C04_src.v", "Props/C04_structure_src.v", "Props/C04_texts.v",)
+EXTRA_OBLIGATION_FILES = ("Props/C04_kits.v", "Props/C04_src.v", "Props/C04_structure_src.v", "Props/C04_transcribe_src.v", "Props/C04_texts.v",)
 LEVEL_NOTE = ("Theorems for every pattern of the common shape: groups at fixed offsets from the two ends of the match, "
               "adjacent, pieces matching their atoms; when the cutter's site is framed (static check) the starts of groups "
               "1 and 3 are cut positions of the enzyme on the circle; when the sites flank the target, no occurrence of "
